@@ -8,7 +8,7 @@
    Part 3 is the abstract statement a specification denotes (ast_of) and the decidable fragment (flat statements whose
            expressions lie in C02's fragment).
    Definitions only; proofs are in lemmas/SelectLemmas.v and lemmas/SelectReader.v. *)
-From PV Require Import Base Crit gen.TermsTable Terms Page gen.QueryTable Query Parse C02Model C02Expected C02Frag gen.C04Table.
+From PV Require Import Base Crit gen.TermsTable Terms Page gen.QueryTable Query Parse C02Model C02Frag gen.C04Table.
 Local Open Scope string_scope.
 
 (* ------------------------------------------------------------------------------------------- *)
@@ -37,8 +37,8 @@ Definition is_modelled (s : string) : bool := negb (existsb (String.eqb s) unmod
 Definition model_item_flags : list (string * (bool * bool * bool) * list string) :=
   [("_with_sql", (false, false, true), [","]); ("_select_sql", (true, true, true), [","]);
    ("_from_sql", (true, true, true), [","]); ("_where_sql", (false, true, true), []);
-   ("_group_sql", (false, false, true), [","]); ("_having_sql", (false, false, true), []);
-   ("_orderby_sql", (false, false, true), [","]); ("Join.get_sql", (true, true, true), []);
+   ("_group_sql", (false, true, true), [","]); ("_having_sql", (false, true, true), []);
+   ("_orderby_sql", (false, true, true), [","]); ("Join.get_sql", (true, true, true), []);
    ("JoinOn.get_sql", (false, true, true), []); ("JoinUsing.get_sql", (false, false, true), [","])].
 Definition flags_of (name : string) : bool * bool :=
   match find (fun r => String.eqb (fst (fst r)) name) model_item_flags with
@@ -104,13 +104,13 @@ Fixpoint seg_groups (l : list item) : res (list string) :=
   match l with [] => Ok [] | y :: r =>
     a <- (match (if k_gba k then aref y else None) with
           | Some a => Ok (fq (or_ostr (aq (kc k)) (q (kc k))) a)
-          | None => ritem kk srcs (ci false false) y end) ;;
+          | None => ritem (mk_k (kc kk) (k_abs kk) true) srcs (ci false clause_subq_groupby) y end) ;;
     rest <- seg_groups r ;; Ok (a :: rest) end.
 Fixpoint seg_orders (l : list (item * option order)) : res (list string) :=
   match l with [] => Ok [] | (y, d) :: r =>
     a <- (match aref y with
           | Some a => Ok (fq (or_ostr (aq (kc k)) (q (kc k))) a)
-          | None => ritem kk srcs (ci false false) y end) ;;
+          | None => ritem kk srcs (ci false clause_subq_orderby) y end) ;;
     rest <- seg_orders r ;;
     Ok ((match d with Some d' => a ++ " " ++ order_text d' | None => a end) :: rest) end.
 End Refs.
@@ -168,7 +168,7 @@ Definition sel_text (kin : kctx) (walias subquery : bool) (ali : option string)
     wh <- opt_bind wheres (fun i => a <- ritem kk srcs (ci false true) i ;; Ok (" WHERE " ++ a)) ;;
     gb <- (match groupbys with [] => Ok "" | _ =>
              gs <- seg_groups k kk srcs ci (alias_ref_of selects) groupbys ;; Ok (" GROUP BY " ++ join "," gs) end) ;;
-    hv <- opt_bind havings (fun i => a <- ritem kk srcs (ci false false) i ;; Ok (" HAVING " ++ a)) ;;
+    hv <- opt_bind havings (fun i => a <- ritem kk srcs (ci false clause_subq_having) i ;; Ok (" HAVING " ++ a)) ;;
     ob <- (match orderbys with [] => Ok "" | _ =>
              os <- seg_orders k kk srcs ci (alias_ref_of selects) orderbys ;; Ok (" ORDER BY " ++ join "," os) end) ;;
     let body := w ++ "SELECT " ++ (if distinct then "DISTINCT " else "") ++ join "," sel
@@ -198,7 +198,7 @@ Definition sel_segs (kin : kctx) (c : cls) (withs : list (string * query)) (dist
   wh <- opt_bind wheres (fun i => a <- ritem kk srcs (ci false true) i ;; Ok (" WHERE " ++ a)) ;;
   gb <- (match groupbys with [] => Ok "" | _ =>
            gs <- seg_groups k kk srcs ci (alias_ref_of selects) groupbys ;; Ok (" GROUP BY " ++ join "," gs) end) ;;
-  hv <- opt_bind havings (fun i => a <- ritem kk srcs (ci false false) i ;; Ok (" HAVING " ++ a)) ;;
+  hv <- opt_bind havings (fun i => a <- ritem kk srcs (ci false clause_subq_having) i ;; Ok (" HAVING " ++ a)) ;;
   ob <- (match orderbys with [] => Ok "" | _ =>
            os <- seg_orders k kk srcs ci (alias_ref_of selects) orderbys ;; Ok (" ORDER BY " ++ join "," os) end) ;;
   Ok (mkSegs w ("SELECT " ++ (if distinct then "DISTINCT " else "") ++ join "," sel)
@@ -485,9 +485,9 @@ Definition flat_toks (fl : flat) : option (list stok) :=
   match all_some (map (item_toks (sq_ci w true true)) (f_items fl)),
         all_some (map (join_toks w) (f_joins fl)),
         opt_clause KWhere (sq_ci w false true) (f_where fl),
-        all_some (map (gitem_toks (sq_ci w false false)) (f_group fl)),
-        opt_clause KHaving (sq_ci w false false) (f_having fl),
-        all_some (map (order_toks (sq_ci w false false)) (f_order fl))
+        all_some (map (gitem_toks (sq_ci w false clause_subq_groupby)) (f_group fl)),
+        opt_clause KHaving (sq_ci w false clause_subq_having) (f_having fl),
+        all_some (map (order_toks (sq_ci w false clause_subq_orderby)) (f_order fl))
   with
   | Some its, Some js, Some wh, Some gs, Some hv, Some os =>
       Some (SK KSel :: (if f_distinct fl then [SK KDistinct] else []) ++ commas its
@@ -513,9 +513,9 @@ Definition flat_ast (fl : flat) : option sel_ast :=
                                 | FUsing cs => Some (p, t, JcUsing cs)
                                 | FNone => Some (p, t, JcNone) end) (f_joins fl)),
         match f_where fl with None => Some None | Some t => option_map Some (eexpr (sq_ci w false true) t) end,
-        all_some (map (gitem_expr (sq_ci w false false)) (f_group fl)),
-        match f_having fl with None => Some None | Some t => option_map Some (eexpr (sq_ci w false false) t) end,
-        all_some (map (fun od => option_map (fun e => (e, snd od)) (gitem_expr (sq_ci w false false) (fst od))) (f_order fl))
+        all_some (map (gitem_expr (sq_ci w false clause_subq_groupby)) (f_group fl)),
+        match f_having fl with None => Some None | Some t => option_map Some (eexpr (sq_ci w false clause_subq_having) t) end,
+        all_some (map (fun od => option_map (fun e => (e, snd od)) (gitem_expr (sq_ci w false clause_subq_orderby) (fst od))) (f_order fl))
   with
   | Some its, Some js, Some wh, Some gs, Some hv, Some os =>
       Some (mkAst (f_distinct fl) its (f_from fl) js wh gs hv os (f_lim fl) (f_off fl))
@@ -529,9 +529,9 @@ Definition flat_frag (fl : flat) : bool :=
   forallb (fun it => frag02 (sq_ci w true true) (fst it)) (f_items fl)
   && forallb (fun j => match snd j with FOn e => frag02 (sq_ci w false true) e | FUsing (_ :: _) => true | FUsing [] => false | FNone => true end) (f_joins fl)
   && match f_where fl with None => true | Some t => frag02 (sq_ci w false true) t end
-  && forallb (gitem_frag (sq_ci w false false)) (f_group fl)
-  && match f_having fl with None => true | Some t => frag02 (sq_ci w false false) t end
-  && forallb (fun od => gitem_frag (sq_ci w false false) (fst od)) (f_order fl)
+  && forallb (gitem_frag (sq_ci w false clause_subq_groupby)) (f_group fl)
+  && match f_having fl with None => true | Some t => frag02 (sq_ci w false clause_subq_having) t end
+  && forallb (fun od => gitem_frag (sq_ci w false clause_subq_orderby) (fst od)) (f_order fl)
   && match f_items fl with [] => false | _ => true end
   && match f_lim fl, f_off fl with None, Some _ => false | _, _ => true end.
 
